@@ -80,6 +80,24 @@ type HasUnion struct {
 	V *UnionK // optional
 }
 
+// a kinded union: one member per representation kind, among them structs whose representation kind
+// is not map (listpairs → list, stringjoin → string)
+type LP struct {
+	A int64
+	B string
+}
+type UKind struct {
+	Int      *int64
+	LP       *LP
+	KS       *KS
+	OMapVals *OMapVals
+	Bool     *bool
+}
+type HasKinded struct {
+	U UKind
+	L []UKind
+}
+
 type EnumS string
 type EnumI int
 
@@ -158,6 +176,9 @@ type OMapPtr {String:nullable Inner}
 type OMap struct { M OMapVals  MP OMapPtr }
 type UnionK union { | Int "num" | String "str" | Inner "in" } representation keyed
 type HasUnion struct { U UnionK  V optional UnionK }
+type LP struct { A Int  B String } representation listpairs
+type UKind union { | Int int | LP list | KS string | OMapVals map | Bool bool } representation kinded
+type HasKinded struct { U UKind  L [UKind] }
 type EnumS enum { | Red ("r") | Green } representation string
 type EnumI enum { | Zero ("0") | Seven ("7") } representation int
 type Enums struct { S EnumS  I EnumI }
@@ -462,6 +483,43 @@ var Vocabulary = []Entry{
 				o = unionView(*x.V)
 			}
 			return ref.Map(ref.E("U", unionView(x.U)), ref.E("V", o))
+		}},
+	{Name: "HasKinded", New: func() interface{} { return &HasKinded{} },
+		Values: func() []interface{} {
+			t := true
+			us := []UKind{{Int: i64p(4)}, {LP: &LP{1, "b"}}, {KS: &KS{"a", "b"}}, {OMapVals: &OMapVals{[]string{"k"}, map[string]int64{"k": 2}}}, {Bool: &t}}
+			var out []interface{}
+			for i, u := range us {
+				out = append(out, &HasKinded{U: u, L: []UKind{}}, &HasKinded{U: u, L: []UKind{us[(i+1)%len(us)], u}})
+			}
+			return out
+		},
+		View: func(v interface{}) ref.Val {
+			x := v.(*HasKinded)
+			uv := func(u UKind) ref.Val {
+				switch {
+				case u.Int != nil:
+					return ref.Map(ref.E("Int", ref.Int(*u.Int)))
+				case u.LP != nil:
+					return ref.Map(ref.E("LP", ref.Map(ref.E("A", ref.Int(u.LP.A)), ref.E("B", ref.Str(u.LP.B)))))
+				case u.KS != nil:
+					return ref.Map(ref.E("KS", ref.Map(ref.E("A", ref.Str(u.KS.A)), ref.E("B", ref.Str(u.KS.B)))))
+				case u.OMapVals != nil:
+					m := ref.Map()
+					for _, k := range u.OMapVals.Keys {
+						m.M = append(m.M, ref.E(k, ref.Int(u.OMapVals.Values[k])))
+					}
+					return ref.Map(ref.E("OMapVals", m))
+				case u.Bool != nil:
+					return ref.Map(ref.E("Bool", ref.Bool(*u.Bool)))
+				}
+				return ref.Map()
+			}
+			l := ref.List()
+			for _, u := range x.L {
+				l.L = append(l.L, uv(u))
+			}
+			return ref.Map(ref.E("U", uv(x.U)), ref.E("L", l))
 		}},
 	{Name: "Enums", New: func() interface{} { return &Enums{} },
 		Values: func() []interface{} {
